@@ -135,7 +135,7 @@ pub fn run(cfg: &Cfg, rep: &mut Report) {
         }
         play(&h, r, &|| crate::util::replay_ref(cfg, "exhaustive", idx), "exhaustive");
     });
-    let n = if miri { 40 } else { cfg.n(200_000, 2_000_000) };
+    let n = if miri { 40 } else { cfg.n(200_000, 40_000_000) };
     run_stage(cfg, rep, "random", n, |idx, rng, r| {
         let h = gen_hist(rng);
         if idx < 2 {
